@@ -22,17 +22,21 @@ pub struct Case {
 }
 
 /// (length, total turning, r0, r1, bump, samples)
-pub const A_SECTIONS: [(f64, f64, f64, f64, f64, usize); 10] = [
+pub const A_SECTIONS: [(f64, f64, f64, f64, f64, usize); 12] = [
     (10.0, 0.0, 0.5, 0.2, 0.0, 200),
     (10.0, 0.6, 0.4, 0.15, 0.6, 300),
     (0.8, 0.4, 0.03, 0.012, 0.05, 300),
     (100.0, -0.5, 3.0, 1.0, 5.0, 400),
+    // camber line shorter than half a length unit: nothing in the analysis may be an absolute length
+    (0.3, 0.3, 0.012, 0.005, 0.02, 300),
     (10.0, 0.4, 0.45, 0.45, 0.0, 300),
     (10.0, -0.6, 0.5, 0.25, 0.3, 400),
     (100.0, 0.0, 4.0, 2.0, 3.0, 200),
     (0.8, 0.0, 0.04, 0.02, 0.0, 200),
     (10.0, 0.4, 0.3, 0.12, 0.5, 200),
     (100.0, 0.4, 3.5, 1.5, 0.0, 400),
+    // section 1 scaled by 0.05
+    (0.5, 0.6, 0.02, 0.0075, 0.03, 300),
 ];
 pub const B_SECTIONS: [(f64, f64, usize); 5] = [(20.0, 3.0, 600), (5.0, 1.5, 500), (0.5, 0.08, 400), (10.0, 1.0, 800), (20.0, 2.0, 400)];
 pub const C_SECTIONS: [(f64, f64, f64, f64, f64, usize); 3] = [(10.0, 0.3, 0.4, 0.2, 0.3, 300), (100.0, -0.5, 3.0, 1.5, 4.0, 400), (0.8, 0.0, 0.04, 0.02, 0.0, 200)];
@@ -143,7 +147,7 @@ fn analyze(sec: &Curve2, l: f64, case: &Case, face: &FaceOrient, fwd: Vector2) -
     let o: Box<dyn CamberOrient> = if case.orient == "tmax" { TMaxFwd::make() } else { DirectionFwd::make(fwd) };
     verif::set_budget(400_000);
     let r = guarded(|| AirfoilGeometry::try_analyze(sec, 1e-4 * l, o, locator(&case.le, l), locator(&case.te, l), face.clone()).map_err(|e| e.to_string()));
-    verif::set_budget(u64::MAX);
+    reset_budget();
     match r {
         Err(p) => Err(format!("panic: {}", p)),
         Ok(Err(e)) => Err(format!("Err: {}", e)),
@@ -221,7 +225,7 @@ fn judge_a(case: &Case, l_: &mut Local) {
     let (base_pts, truth) = envelope_section(l, bend, r0, r1, bump, n, false, sharp);
     let tau = 1e-4 * l;
     let h = l / n as f64;
-    l_.bucket(if sharp { "sharp trailing edge" } else if l < 1.0 { "family A, chord below one unit" } else { "family A" });
+    l_.bucket(if sharp { "sharp trailing edge" } else if l < 0.5 { "family A, chord below half a unit" } else if l < 1.0 { "family A, chord below one unit" } else { "family A" });
     l_.bucket(if case.detect_face { "face orientation detected" } else { "face orientation given" });
     let mut reference: Option<Summary> = None;
     let mut outcomes: Vec<bool> = Vec::new();
@@ -254,6 +258,11 @@ fn judge_a(case: &Case, l_: &mut Local) {
                         l_.check("the analysis terminates within its iteration budget", "", false, mk, || format!("{}: {}", tag, e));
                     } else if panic {
                         l_.check("the analysis returns without panicking", "", false, mk, || format!("{}: {}", tag, e));
+                    } else if !sharp {
+                        // every closed-section edge method applies to an envelope section with rounded ends
+                        l_.check("an envelope section with rounded ends is analysed by every closed-section edge method", "", false, mk, || format!("{}: {}", tag, e));
+                    } else {
+                        l_.bucket(&format!("rejection reason: {}", e.chars().take(90).collect::<String>()));
                     }
                 }
                 Ok(g) => {
@@ -360,6 +369,7 @@ fn judge_a(case: &Case, l_: &mut Local) {
     l_.check("acceptance or rejection of a configuration is the same for every pose and vertex order", "", all_same, mk, || format!("{:?}", outcomes));
     if outcomes.iter().any(|x| !*x) {
         l_.bucket("configuration rejected");
+        l_.bucket(&format!("rejected: family {} section {} le {} te {}", case.family, case.section, case.le, case.te));
     } else {
         l_.bucket("configuration accepted");
     }
@@ -503,6 +513,79 @@ fn judge_c(case: &Case, l_: &mut Local) {
     }
 }
 
+
+/// Skew factors of the open end, in units of the end radius, and which surface is the shorter one
+pub const K_SKEWS: [f64; 6] = [0.5, 1.0, 1.25, 1.5, 1.75, 2.5];
+
+/// Family K: family C with the open end cut at a skew (one surface stops earlier than the other), so that
+/// close to the end a spanning ray at the normal step misses one surface and the march has to shorten its
+/// step or stop. Acceptance is not demanded; termination, consistency across poses and the clauses of an
+/// accepted result are.
+fn judge_k(case: &Case, l_: &mut Local) {
+    let mk = || serde_json::to_value(case).unwrap();
+    let ci = case.section % C_SECTIONS.len();
+    let ki = (case.section / C_SECTIONS.len()) % K_SKEWS.len();
+    let upper_short = case.section / (C_SECTIONS.len() * K_SKEWS.len()) % 2 == 0;
+    let (l, bend, r0, r1, bump, n) = C_SECTIONS[ci];
+    let (mut base, truth) = envelope_section(l, bend, r0, r1, bump, n, true, false);
+    let h = l / n as f64;
+    let (_, r_end) = truth(l);
+    let skew = K_SKEWS[ki] * r_end;
+    let k = ((skew / h).round() as usize).max(1);
+    // the outline runs upper surface (open end first), leading cap, lower surface (open end last)
+    if upper_short {
+        base.drain(0..k);
+    } else {
+        base.truncate(base.len() - k);
+    }
+    let tau = 1e-4 * l;
+    l_.bucket("family K (open end cut at a skew)");
+    let mut outcomes = Vec::new();
+    for (pi, pose) in poses().iter().take(3).enumerate() {
+        for rev in [false, true] {
+            let mut pts: Vec<Point2> = base.iter().map(|p| pose * p).collect();
+            if rev {
+                pts.reverse();
+            }
+            let sec = match Curve2::from_points(&pts, 1e-7 * l, false) {
+                Ok(c) => c,
+                Err(_) => continue,
+            };
+            let tag = format!("pose {} reversed {}", pi, rev);
+            l_.eval();
+            match analyze(&sec, l, case, &FaceOrient::UpperDir(pose * Vector2::new(0.0, 1.0)), pose * Vector2::new(-1.0, 0.0)) {
+                Err(e) => {
+                    outcomes.push(false);
+                    if e.contains("VERIF_BUDGET") {
+                        l_.check("the analysis terminates within its iteration budget", "", false, mk, || format!("{}: {}", tag, e));
+                    } else if e.starts_with("panic") {
+                        l_.check("the analysis returns without panicking", "", false, mk, || format!("{}: {}", tag, e));
+                    } else {
+                        l_.bucket("skewed open section rejected");
+                    }
+                }
+                Ok(g) => {
+                    outcomes.push(true);
+                    l_.bucket("skewed open section accepted");
+                    l_.outcome(hash_of(&(g.stations.len().min(200) / 10, case.section, 11u8)));
+                    // beyond the shorter surface the outline is one-sided: stations there are not claimed
+                    let inv = pose.inverse();
+                    let limit = l - skew - 2.0 * r_end;
+                    let (c_lim, _) = truth(limit.max(0.0));
+                    let (c_end, _) = truth(l);
+                    let axis = (c_end - c_lim).normalize();
+                    let beyond = move |st: &InscribedCircle| (inv * st.center() - c_lim).dot(&axis) > 0.0;
+                    judge_common(&g, &sec, l, case, &tag, false, &beyond, l_);
+                    let _ = tau;
+                }
+            }
+        }
+    }
+    if !outcomes.is_empty() {
+        l_.check("acceptance or rejection of a configuration is the same for every pose and vertex order", "", outcomes.iter().all(|x| *x == outcomes[0]), mk, || format!("{:?}", outcomes));
+    }
+}
+
 pub fn judge(case: &Case, l: &mut Local) {
     l.distinct(hash_of(&serde_json::to_string(case).unwrap()));
     if case.section == 1 {
@@ -511,13 +594,14 @@ pub fn judge(case: &Case, l: &mut Local) {
     match case.family.as_str() {
         "A" | "S" => judge_a(case, l),
         "B" => judge_b(case, l),
+        "K" => judge_k(case, l),
         _ => judge_c(case, l),
     }
 }
 
 pub fn cases(tier: Tier) -> Vec<Case> {
     let mut out = Vec::new();
-    let na = tier.pick(4, A_SECTIONS.len());
+    let na = tier.pick(5, A_SECTIONS.len());
     for section in 0..na {
         for le in ["intersect", "fitradius", "constradius", "ransac"] {
             for orient in ["tmax", "dir"] {
@@ -553,14 +637,20 @@ pub fn cases(tier: Tier) -> Vec<Case> {
             out.push(Case { family: "C".into(), section, le: "intersect".into(), te: te.into(), orient: "dir".into(), detect_face: false });
         }
     }
+    // open end cut at a skew: 3 sections x 6 skews x {upper, lower} shorter
+    for section in 0..C_SECTIONS.len() * K_SKEWS.len() * 2 {
+        for te in ["open", "opengap"] {
+            out.push(Case { family: "K".into(), section, le: "intersect".into(), te: te.into(), orient: "dir".into(), detect_face: false });
+        }
+    }
     out
 }
 
 pub fn run(tier: Tier) -> i32 {
     let mut cx = Ctx::new("C10", tier, "exploration");
-    cx.rule = "generated sections with closed-form medial axes: family A = envelope of circles along a circular-arc camber (turning 0, +-0.4..0.6; length 0.8, 10, 100; linear + sinusoidal radius laws; 200-400 samples), family B = ellipses (medial axis = focal segment), family C = family A open at the trailing end, family S = family A tapering to a sharp corner; configurations: {TMaxFwd, DirectionFwd} x leading/trailing locators applicable to the family x {detected, given} face orientation; every configuration analysed in 4 poses x {as given, reversed, start rotated, both} (16 variants; B: 12, C: 6) with iteration budgets. distinct = distinct configurations".into();
-    cx.bounds = json!({"family_a_sections": tier.pick(4, A_SECTIONS.len()), "family_b_sections": tier.pick(3, B_SECTIONS.len()), "variants_per_configuration": 16, "iteration_budget": 400000});
-    cx.require(&["family A", "family A, chord below one unit", "face orientation detected", "face orientation given", "family B (ellipse)", "family C (open trailing end)", "sharp trailing edge", "configuration accepted", "open edge as the leading locator"]);
+    cx.rule = "generated sections with closed-form medial axes: family A = envelope of circles along a circular-arc camber (turning 0, +-0.4..0.6; length 0.3, 0.8, 10, 100; linear + sinusoidal radius laws; 200-400 samples), family B = ellipses (medial axis = focal segment), family C = family A open at the trailing end, family S = family A tapering to a sharp corner, family K = family C with the open end cut at a skew of 0.5 .. 2.5 end radii on either surface; configurations: {TMaxFwd, DirectionFwd} x leading/trailing locators applicable to the family x {detected, given} face orientation; every configuration analysed in 4 poses x {as given, reversed, start rotated, both} (16 variants; B: 12, C: 6) with iteration budgets. distinct = distinct configurations".into();
+    cx.bounds = json!({"family_a_sections": tier.pick(5, A_SECTIONS.len()), "family_b_sections": tier.pick(3, B_SECTIONS.len()), "variants_per_configuration": 16, "iteration_budget": 400000});
+    cx.require(&["family A", "family A, chord below one unit", "family A, chord below half a unit", "face orientation detected", "face orientation given", "family B (ellipse)", "family C (open trailing end)", "sharp trailing edge", "family K (open end cut at a skew)", "configuration accepted", "open edge as the leading locator"]);
     cx.assume("tolerances in units of the analysis tolerance tau = 1e-4 * chord and the sampling step h: inscribed 2 tau, manufactured stations 20 tau, known medial axis 1 (tau + h), variant agreement 8 (tau + h); a configuration may be rejected (Err) but then for every variant alike");
     let cs = cases(tier);
     let l = sweep(&cs, judge);
